@@ -62,6 +62,19 @@ Theorem C11_wt_bounded_checks :
 Proof. exact wt_bounded_checks. Qed.
 Print Assumptions C11_wt_bounded_checks.
 
+(* "still running" is backed by a fresh status check: the trace of a wait_timeout(d) that answers None
+   contains a non-blocking waitpid that found the child alive (K answers RWaitZero only for a live child),
+   completed no earlier than one call duration before the deadline t0 + d *)
+Theorem C11_wt_none_is_fresh : forall D O p d w tr p' w',
+  execB D O (start_op p (OpWaitTimeout d)) w tr p' (VStatus None) w' ->
+  exists t0 tr1 tc, tr = (PClock, RTime t0, t0) :: tr1 /\ In (PWaitpid true, RWaitZero, tc) tr1 /\ (t0 + d <= tc + D)%N.
+Proof. exact wt_none_is_fresh. Qed.
+Print Assumptions C11_wt_none_is_fresh.
+
+Theorem C11_waitzero_means_alive : forall w dur over w', pserve w (PWaitpid true) dur over = PRes w' RWaitZero -> pr w' = PAlive.
+Proof. exact pserve_waitzero_alive. Qed.
+Print Assumptions C11_waitzero_means_alive.
+
 Example C11_nonvacuous :
   MAXNS = 100000000 /\
   let w0 := {| pr := PAlive; exit_at := None; reap_at := None; dies_on_signal := false; pnow := 0; kills := [] |} in
